@@ -677,7 +677,21 @@ func scenC15(w *vsim.World, spec *vsim.Spec) {
 		live := len(s.liveProcs(u)) > 0
 		switch {
 		case (ac.c.State == arvados.ContainerStateRunning || ac.c.State == arvados.ContainerStateLocked) && !live:
-			s.viol("C15", "container-stuck-without-process", string(ac.c.State), "container %s is still %s with no live crunch-run process %s after the last fault (bound %s); history: %s | starts: %s",
+			stuckSig := string(ac.c.State)
+			{
+				// the at-quota thrash (see below) caught in the Locked half of its lock/unlock cycle
+				created, started := 0, 0
+				for _, in := range s.cloud.insts {
+					if in.created.After(quietStart) {
+						created++
+						started += len(in.vm.procs)
+					}
+				}
+				if ac.c.State == arvados.ContainerStateLocked && s.k.Quota <= 3 && created >= 30 && started*8 <= created {
+					stuckSig = "at-quota-thrash-instances-destroyed-unused"
+				}
+			}
+			s.viol("C15", "container-stuck-without-process", stuckSig, "container %s is still %s with no live crunch-run process %s after the last fault (bound %s); history: %s | starts: %s",
 				u, ac.c.State, since, B, strings.Join(ac.hist, ", "), strings.Join(s.historyOf(u), " | "))
 		case !isFinal(ac.c.State) && ac.c.Priority > 0 && ac.chosen:
 			sig := string(ac.c.State)
